@@ -25,8 +25,14 @@ def sh(cmd, timeout=3600, env=None):
     return r.returncode, r.stdout + r.stderr
 
 
+SEEDDIR = "seeded"
+ALL = [f"C{n:02d}" for n in range(1, 21)]
+
+
 def checks_of(sid):
-    meta = json.load(open(VERIF / "seeded" / sid / "meta.json"))
+    if SEEDDIR != "seeded":
+        return list(ALL)          # behaviour-preserving refactorings: every check must stay silent
+    meta = json.load(open(VERIF / SEEDDIR / sid / "meta.json"))
     out = []
     for c in [sid.split("-")[0]] + list(meta.get("checks_run", [])) + list(meta.get("extra_checks", [])):
         if c not in out:
@@ -51,7 +57,7 @@ def worker(k, jobs, matrix, lock):
                 if not jobs:
                     return
                 sid = jobs.pop(0)
-            d = VERIF / "seeded" / sid
+            d = VERIF / SEEDDIR / sid
             rc, out = sh(f"git -C {rroot} apply {d}/patch.diff")
             row = {}
             if rc != 0:
@@ -78,19 +84,22 @@ def worker(k, jobs, matrix, lock):
                 sh(f"git -C {rroot} checkout -- . && git -C {rroot} clean -fdq")
             with lock:
                 matrix[sid] = row
-                json.dump(matrix, open(VERIF / "seeded" / "MATRIX.json", "w"), indent=1, sort_keys=True)
+                json.dump(matrix, open(VERIF / SEEDDIR / "MATRIX.json", "w"), indent=1, sort_keys=True)
     finally:
         sh(f"git -C /repo worktree remove --force {rroot}")
         shutil.rmtree(root, ignore_errors=True)
 
 
 def main():
+    global SEEDDIR
     args = sys.argv[1:]
+    if args[:1] == ["--benign"]:
+        SEEDDIR, args = "seeded_benign", args[1:]
     nj = 6
     if args[:1] == ["-j"]:
         nj, args = int(args[1]), args[2:]
-    ids = args or sorted(p.name for p in (VERIF / "seeded").iterdir() if (p / "patch.diff").exists())
-    mfile = VERIF / "seeded" / "MATRIX.json"
+    ids = args or sorted(p.name for p in (VERIF / SEEDDIR).iterdir() if (p / "patch.diff").exists())
+    mfile = VERIF / SEEDDIR / "MATRIX.json"
     matrix = json.load(open(mfile)) if mfile.exists() else {}
     jobs, lock = list(ids), threading.Lock()
     ths = [threading.Thread(target=worker, args=(k, jobs, matrix, lock)) for k in range(min(nj, len(ids)))]
@@ -104,9 +113,10 @@ def main():
         a = [c for c, r in row.items() if r["with_input"]]
         b = [c for c, r in row.items() if r["rc"] != 0 and not r["with_input"]]
         n = [c for c, r in row.items() if r["rc"] == 0]
-        note = json.load(open(VERIF / "seeded" / sid / "meta.json")).get("superseded")
+        mf = VERIF / SEEDDIR / sid / "meta.json"
+        note = json.load(open(mf)).get("superseded") if mf.exists() else None
         lines.append(f"| {sid}{' (superseded)' if note else ''} | {' '.join(a) or '-'} | {' '.join(b) or '-'} | {' '.join(n) or '-'} |")
-    open(VERIF / "seeded" / "MATRIX.md", "w").write("\n".join(lines) + "\n")
+    open(VERIF / SEEDDIR / "MATRIX.md", "w").write("\n".join(lines) + "\n")
 
 
 if __name__ == "__main__":
